@@ -24,8 +24,12 @@ fn outcome(r: sourcemap::Result<DecodedMap>) -> Value {
 pub fn run(case: &Value, em: &mut Emitter) {
     if case["op"] == "locate" {
         let text = cps_to_string(&case["file"]);
+        // the reader entry point is fed through a source that returns short reads (1 byte, then uneven chunks)
+        let sizes: Vec<usize> = (0..12).map(|k| 1 + (text.len() * (k + 2) / 5) % 29).collect();
+        let chunked = guard(|| refv(locate_sourcemap_reference(crate::c12::ChunkedReader::new(text.as_bytes().to_vec(), sizes.clone(), 8192))));
         let out = guard(|| json!({"k": "ok",
             "reader": refv(locate_sourcemap_reference(text.as_bytes())),
+            "reader_chunked": chunked,
             "slice": refv(locate_sourcemap_reference_slice(text.as_bytes())),
             "view": refv(SourceView::new(text.clone().into()).sourcemap_reference())}));
         em.emit("locate", json!({"file": case["file"]}), out);
